@@ -6,7 +6,7 @@ import storefamx
 import vlib
 
 PID = "C15"
-FILES = ["theories/Properties/C15.v", "theories/Examples/C15Examples.v"]
+FILES = ["theories/Properties/C15.v", "theories/Examples/C15Examples.v", "theories/Examples/C15Paging.v"]
 
 
 def families(sch):
@@ -41,7 +41,7 @@ def fam_reads(sch, tx):
             continue
         if p[0] in ("Q", "V", "L", "I", "QS"):   # id sets (the property does not order them)
             out.append("%s:%s:%s" % (p[0], p[1], ",".join(sorted(x for x in p[2].split(",") if x))))
-        elif p[0] == "LF":
+        elif p[0] in ("LF", "QP"):     # QP: paged / sorted / counted queries - count and ORDERED page, verbatim
             out.append(t)
     return tuple(sorted(out))
 
@@ -90,6 +90,100 @@ def want_val(tok, ptr):
     return "s" + tok
 
 
+QP_STATS = dict(queries=0, through_plain_child=0, plain_parents_match_too=0, page_smaller_than_matching_parents=0,
+                through_extended_child=0, with_total=0)
+
+
+def unhex(h):
+    return b"" if h in ("-", "") else bytes.fromhex(h)
+
+
+def qp_oracle(sch, fam, ents, child, fv, cfv, other):
+    """paged / sorted / counted queries (tokens QP:<store>:<api>:<filter>:<sort>:<dir>:<skip>:<limit>:<count>:<ids>) against the
+    entity facts of the implementation: the total is the number of entities the store shows (parent: all; plain child: those
+    with child data; extended child: all parent entities) that satisfy the filter; the page holds only such entities, each
+    once, and exactly min(limit, total - skip) of them (no row is lost to rows the store does not show).  The ORDER inside the
+    page is not judged here (C02's subject; it is compared with the machine's).  -> list of (key, description)"""
+    out = []
+    seen = set()
+    memo = {}
+    stores = {}
+    for r, cs in fam.items():
+        stores[r] = (r, "parent")
+        for c in cs:
+            stores[c] = (r, "extended" if sch.stores[c]["ext"] else "plain")
+    for t in sorted((x for x in other if x.startswith("QP:")), key=lambda x: (x.split(":")[2] != "q", x)):   # QueryIds first
+        p = t.split(":")
+        if len(p) != 10 or p[1] not in stores:
+            continue
+        s, api, flt, srt, dr, skip, limit, count, ids = p[1], p[2], p[3], p[4], p[5], int(p[6]), p[7], p[8], p[9]
+        r, kind = stores[s]
+        if count == "ERR":
+            continue   # a refused query is not judged here; the machine answers every generated query, so it is reported as a difference
+        if (s, flt) not in memo:
+            own = set(f for f, _ in sch.stores[s]["fields"]) if kind != "parent" else set()
+
+            def val(i, f, s=s, r=r, own=own):
+                raw = cfv.get((r, i, s, f), "absent") if f in own else fv.get((r, i, f), "absent")
+                return unhex(raw[1:]) if raw.startswith("s") else None
+
+            all_ids = sorted(ents.get(r, ()), key=unhex)
+            shown = [i for i in all_ids if kind != "plain" or (r, i, s) in child]
+            if flt == "T":
+                match = lambda i: True
+            else:
+                _, ff, hv = flt.split("=")
+                want_v = unhex(hv)
+                match = lambda i, ff=ff, want_v=want_v: val(i, ff) == want_v
+            memo[(s, flt)] = ([i for i in shown if match(i)], [i for i in all_ids if match(i)])
+        want, parents_matching = memo[(s, flt)]
+        got = [x for x in ids.split(",") if x]
+        QP_STATS["queries"] += 1
+        QP_STATS["with_total"] += count != "-"
+        QP_STATS["through_extended_child"] += kind == "extended"
+        if kind == "plain":
+            QP_STATS["through_plain_child"] += 1
+            if want and len(parents_matching) > len(want):
+                QP_STATS["plain_parents_match_too"] += 1
+                QP_STATS["page_smaller_than_matching_parents"] += limit != "n" and int(limit) + skip < len(parents_matching)
+        q = lambda: "%s(%s%s%s%s) through %s store %s" % (
+            dict(q="QueryIds", c="QueryWithCursorC", i="IterateIds")[api],
+            "true" if flt == "T" else "%s = 0x%s" % (flt.split("=")[1], flt.split("=")[2]),
+            "" if srt == "-" else " sort by %s%s" % (srt, " desc" if dr == "d" else ""),
+            " skip %d" % skip if skip else "", "" if limit == "n" else " limit " + limit, kind, s)
+        tag = "parent" if kind == "parent" else "child"
+        if count != "-" and int(count) != len(want):
+            key = "C15:%s-query-count%s" % (tag, "" if kind == "parent" else "-" + kind)
+            if key not in seen:
+                seen.add(key)
+                extra = ""
+                if kind == "plain" and int(count) == len(parents_matching):
+                    extra = " - that is the number of matching PARENT entities %s: plain parents are counted" % parents_matching
+                out.append((key, "%s reports a total of %s; the entities it shows that satisfy the filter are %s (%d)%s"
+                            % (q(), count, want, len(want), extra)))
+        key = "C15:%s-query-page%s" % (tag, "" if kind == "parent" else "-" + kind)
+        if key in seen:
+            continue
+        stray = [i for i in got if i not in want]
+        n_want = max(0, len(want) - skip)
+        if limit != "n":
+            n_want = min(n_want, int(limit))
+        if stray:
+            seen.add(key)
+            out.append((key, "%s returns %s: %s %s" % (q(), got, stray, "have no child data / do not satisfy the filter"
+                                                        if kind == "plain" else "are not entities satisfying the filter")))
+        elif len(set(got)) != len(got):
+            seen.add(key)
+            out.append((key, "%s returns an id twice: %s" % (q(), got)))
+        elif len(got) != n_want:
+            seen.add(key)
+            out.append((key, "%s returns %d row(s) %s; %d of the %d entities it shows that satisfy the filter %s belong on this page (%s)"
+                        % (q(), len(got), got, n_want, len(want), want,
+                           "rows lost: rows the store does not show took part in the limit" if len(got) < n_want
+                           else "rows the store does not show took part in the skip")))
+    return out
+
+
 def oracle(sch, txs, io, mo):
     compare.sch = sch
     out = []
@@ -130,6 +224,9 @@ def oracle(sch, txs, io, mo):
                                 got = [x for x in lf if x.startswith("LF:%s:%s:%s:" % (st, i, f))]
                                 out.append(("C15:child-load-fields", "LoadById through %s of %s: field %s is %s, stored %s"
                                             % (st, i, f, got, raw), k))
+        # ---- paged / sorted / counted queries through every store of the family (every state)
+        for key, desc in qp_oracle(sch, fam, ents, child, fv, cfv, a["other"]):
+            out.append((key, desc, k))
         if out:
             break
         if a["commit"]:
@@ -138,6 +235,14 @@ def oracle(sch, txs, io, mo):
                                                 and f.split(":")[1] in fam])
             if probs:
                 out.append(("C15:parent-index", "after a committed transaction: " + "; ".join(probs[:3]), k))
+            # ... and so do the fk indexes (back-reference sets in the target stores) of the family's stores: a create / update /
+            # delete through either store leaves exactly the referrers in them
+            famstores = set(fam) | set(c for cs in fam.values() for c in cs)
+            fkp = [x for x in storefam.fk_oracle(sch, a["facts"]) if x.split(" ")[1].split(".")[0] in famstores]
+            if fkp:
+                out.append(("C15:parent-fk-index", "after the committed transaction [%s]: %s" % (
+                    ", ".join("%s %s %s" % (dict(C="Create", UP="Update", D="DeleteById").get(o["kind"], o["kind"]), o.get("store", ""),
+                                            o.get("id", "")) for o in ops), "; ".join(fkp[:3])), k))
             pents, pchild = prev_view[0], prev_view[1]
             for j, op in enumerate(ops):
                 if op["kind"] not in ("C", "UP", "D"):
@@ -178,6 +283,30 @@ def oracle(sch, txs, io, mo):
                             if got != want:
                                 out.append(("C15:shared-field-not-updated", "%s of %s through %s: shared set %s is %s, written %s"
                                             % ("create" if op["kind"] == "C" else "update", i, s0, sf, sorted(got), sorted(want)), k))
+                    # a patch (update with a field checker) leaves every shared field / set / child field it does NOT name as it
+                    # was stored before the transaction - whichever store it entered through or was delegated to
+                    if op["kind"] == "UP" and chk is not None and not any(o["kind"] in ("D", "AL", "RL") for o in ops) \
+                            and not any(o.get("id") == i and o is not op and sch.root(o.get("store", r)) == r for o in ops) \
+                            and i in pents.get(r, ()):
+                        pfv, pcfv, psets = prev_view[2], prev_view[3], prev_view[4]
+                        for f, ptr in sch.stores[r]["fields"]:
+                            if f not in chk and fv.get((r, i, f), "absent") != pfv.get((r, i, f), "absent"):
+                                out.append(("C15:patch-changed-unchecked-field", "patch of %s through %s naming %s: shared field %s was %s "
+                                            "and is now %s (submitted %s)" % (i, s0, sorted(chk), f, pfv.get((r, i, f), "absent"),
+                                                                              fv.get((r, i, f), "absent"), op["fv"].get(f)), k))
+                        for sf in sch.stores[r]["sets"]:
+                            if sf not in chk and sets.get((r, i, sf), set()) != psets.get((r, i, sf), set()):
+                                out.append(("C15:patch-changed-unchecked-field", "patch of %s through %s naming %s: shared set %s was %s "
+                                            "and is now %s" % (i, s0, sorted(chk), sf, sorted(psets.get((r, i, sf), set())),
+                                                               sorted(sets.get((r, i, sf), set()))), k))
+                        for c in fam[r]:
+                            if (r, i, c) in child and (r, i, c) in pchild:
+                                for f, ptr in sch.stores[c]["fields"]:
+                                    if f not in chk and cfv.get((r, i, c, f), "absent") != pcfv.get((r, i, c, f), "absent"):
+                                        out.append(("C15:patch-changed-unchecked-field", "patch of %s through %s naming %s: child field "
+                                                    "%s.%s was %s and is now %s" % (i, s0, sorted(chk), c, f,
+                                                                                    pcfv.get((r, i, c, f), "absent"),
+                                                                                    cfv.get((r, i, c, f), "absent")), k))
                     # the update of an entity with child data is handled by the child store, whichever store it entered through
                     for c in fam[r]:
                         if (r, i, c) in child and (op["kind"] == "UP" or s0 == c):
@@ -235,12 +364,18 @@ def main(argv):
         "nullable unique, set, fk indexes and links; the child its own unique index) and a parent with an extended child store (casc: b+bx under "
         "cascade-delete fk indexes): create / full and field-checker update / delete through EITHER store over mixed populations of plain-parent "
         "and child entities. After every transaction the bolt file is traversed and every store is read through QueryIds (unsorted and sorted), "
-        "IterateIds, IterateValidIds, FindById and LoadById (field values). Compared with the extracted machine: results, entity / child-data / "
-        "field / index facts of the families, all reads. Oracle on the implementation alone: child create exists in both; plain child reads = ids "
-        "with child data, extended child reads = all parent ids (IterateValidIds: only those with extension data); the child sees the parent's "
-        "fields; shared fields, child fields and the parent's indexes reflect an update through either store; a delete through either store leaves "
-        "no part; parent indexes mirror child entities. Non-trivial: mixed population and a committed update/delete of an entity with child data.",
+        "IterateIds, IterateValidIds, FindById and LoadById (field values), and through ~25 paged / sorted / counted queries per family store "
+        "(QP tokens, c15_paging.go: QueryIds with a non-id sort asc/desc on parent and child fields x limit 1, 2, N-1 / skip 1, id-order QueryIds "
+        "with the total, paged IterateIds, QueryWithCursorC; filter `true` and a selective filter on a parent field that plain parents match "
+        "too). Compared with the extracted machine: results, entity / child-data / field / index facts of the families, all reads (QP: total and "
+        "ordered page, answered by the transcribed scan loops of Store/Paging.v). Oracle on the implementation alone: child create exists in "
+        "both; plain child reads = ids with child data, extended child reads = all parent ids (IterateValidIds: only those with extension data); "
+        "totals and pages of the paged queries count / contain only the entities the store shows, pages hold min(limit, total - skip) rows; the "
+        "child sees the parent's fields; shared fields, child fields and the parent's indexes reflect an update through either store; a patch "
+        "leaves unnamed fields as stored; a delete through either store leaves no part; parent unique / set / fk indexes mirror child "
+        "entities. Non-trivial: mixed population and a committed update/delete of an entity with child data.",
         nontrivial=nontrivial)
+    c.cov["paged_queries"] = dict(QP_STATS)
     if not proof_ok:
         c.violation(PID + ":proof", "proof obligation no longer checks: %s" % json.dumps(c.proof_broken)[:600],
                     dict(broken=c.proof_broken), no_input=True)
